@@ -5,3 +5,7 @@
 pub mod util;
 pub mod hfs;
 pub mod c10_write;
+pub mod c10_batch;
+pub mod c11_retention;
+pub mod c11_member;
+pub mod c11_name;
